@@ -198,11 +198,13 @@ place (const unsigned char *src, size_t n, unsigned off, unsigned char **block)
 static unsigned char *pool_bytes;
 #define POOL_N 16384
 
+static const unsigned char *const_src;   /* when set: message content is this constant-byte pool */
+
 static void
 check_digest (int a, size_t len, const size_t *cuts, int ncuts, unsigned off, unsigned ctxoff, const char *cls)
 {
   unsigned char want[64], got[64], *blk;
-  const unsigned char *src = pool_bytes + (rnd () % (POOL_N - len - 1));
+  const unsigned char *src = const_src ? const_src : pool_bytes + (rnd () % (POOL_N - len - 1));
   unsigned char *m = place (src, len, off, &blk);
   unsigned char *cblk = malloc (ctx_size (a) + 64);
   /* natural alignment of the context is required by the C types; vary it in multiples of 8 */
@@ -367,6 +369,34 @@ cmd_cmp (int thorough)
             for (int i = 0; i < 4; i++)
               check_digest (a, len, &cuts[i], 1, (unsigned) (len & 15), 0, "boundary");
           }
+      /* structured contents: carries and sign handling show only on extreme byte values
+         (all 0xFF, all 0x00, 0x80, 0x7F, and 0xFF runs inside random data) */
+      {
+        static const unsigned char vals[] = { 0xFF, 0x00, 0x80, 0x7F, 0x01, 0xFE };
+        unsigned char *cp = malloc (1200);
+        for (size_t v = 0; v < sizeof vals; v++)
+          {
+            memset (cp, vals[v], 1200);
+            const_src = cp;
+            for (size_t len = 0; len <= 1100; len += (thorough || len < 300) ? 1 : 7)
+              {
+                size_t cut = len / 3;
+                check_digest (a, len, &cut, 1, (unsigned) (len & 15), 0, "constant-bytes");
+              }
+          }
+        for (int k = 0; k < 400; k++)
+          {
+            size_t len = 64 + rnd () % 900, at = rnd () % (len - 40), run = 8 + rnd () % 32;
+            for (size_t i = 0; i < 1200; i++) cp[i] = (unsigned char) rnd ();
+            memset (cp + at, 0xFF, run);
+            const_src = cp;
+            size_t cut = rnd () % (len + 1);
+            check_digest (a, len, &cut, 1, (unsigned) (k & 15), 0, "ff-runs");
+          }
+        const_src = 0;
+        free (cp);
+      }
+      printf ("CLS digest %s constant-bytes\n", aname[a]);
       /* random multi-way splits including zero-length updates */
       int nm = thorough ? 20000 : 2500;
       for (int i = 0; i < nm; i++)
@@ -392,6 +422,19 @@ cmd_cmp (int thorough)
         if (!thorough && (k % 3) && k != 63 && k != 64 && k != 65 && k != 32 && k != 128 && k != 129 && k != 127) continue;
         check_hmacs (k, ml[i], (unsigned) ((k + i) & 15));
       }
+  {
+    unsigned char *save = pool_bytes;
+    unsigned char *ff = malloc (POOL_N);
+    memset (ff, 0xFF, POOL_N);
+    pool_bytes = ff;
+    for (size_t k = 0; k <= 200; k += 5)
+      for (size_t i = 0; i < sizeof ml / sizeof ml[0]; i += 2)
+        check_hmacs (k, ml[i], (unsigned) (k & 15));
+    for (size_t sl = 0; sl <= 80; sl += 4)
+      check_pbkdf2 (40, sl, 1, 64, 0), check_pbkdf2 (70, sl, 3, 33, 1);
+    pool_bytes = save;
+    free (ff);
+  }
   printf ("CLS hmac keylen-0..200\n");
   /* PBKDF2 grid */
   static const uint64_t its[] = { 1, 2, 3, 7, 50 };
